@@ -23,10 +23,14 @@ CHECKS = {
         "with their models "
         "step by step (outcome and exact entry order, incl. the parent outside the sub-directory); every other backend/composition "
         "(OSFS, TempFS, WrapFS kinds, MountFS, MultiFS, write-mode Zip/Tar) is compared with the reference step by step from "
-        "the backend's own pre-state (correspondence only).",
+        "the backend's own pre-state (correspondence only). FTPFS (with and without MLST/MLSD) runs the same comparison against "
+        "a loop-back pyftpdlib server started by the harness. Text calls (writetext/appendtext/readtext/open in text modes, every "
+        "keyword found by reflection: encoding, errors, newline, buffering, line_buffering) on every backend vs the same call "
+        "sequence through io.open on a real file (verdict, returned text, stored bytes after every call).",
    note=TB + "Modelled not verified: CPython str/OrderedDict semantics, the Linux kernel (FS/Posix.v: no permissions, links or "
         "concurrency; answers re-checked per run), archives' temp filesystems; copydir/movedir on OSFS tied but not proved. "
-        "Degenerate merges (destination an ancestor of the source) and FTPFS: not proved; FTPFS not exercised (needs a server).",
+        "Degenerate merges (destination an ancestor of the source) and FTPFS: not proved; FTPFS is exercised against a local "
+        "pyftpdlib server only (its deviations are recorded findings).",
    technique="Coq refinement proofs (MemoryFS, SubFS/WrapFS, OSFS-over-kernel-model, one-member MultiFS vs reference) + "
              "extracted-model/real-code step-by-step ties + reference differential on 13 backends",
    ref="DESIGN.md §4 C01, §9"),
@@ -56,7 +60,10 @@ CHECKS = {
         "and movedir with directory merges whatever the outcome (FS/RefineWalkPreserved.v). " + CORR +
         "The same extracted predicate is applied to storage snapshots of 8 backends and of fs.move/fs.copy functions across "
         "filesystem pairs, incl. two filesystem objects over one storage and a corpus of degenerate nestings; symlink scenarios "
-        "on OSFS.",
+        "on OSFS. A stronger predicate preserved2 (FS/Props2*.v, 8 theorems: a destination may only hold its old bytes or the "
+        "source's; proved for the same calls) is the one the harness applies; transfers across two devices (/tmp and /dev/shm: "
+        "os.rename fails with EXDEV) and onto a destination too small for the data (RLIMIT_FSIZE) are judged by it whatever the "
+        "outcome.",
    note=TB + "Degenerate nestings (destination inside / ancestor of the source) and views of one storage are covered by the "
         "correspondence run only (four recorded findings). OSFS runs against the real kernel.",
    technique="Coq proof of the preservation predicate on reference+model; extracted predicate applied to real snapshots",
@@ -70,7 +77,8 @@ CHECKS = {
         "makedirs leaves no intermediate directory, and the only failure that may leave something behind is a file/directory "
         "clash met while merging (characterised exactly). " + CORR + "Failure-biased histories on 13 backends: class admissible "
         "for the reference in the backend's pre-state, str()/repr() render, snapshot unchanged for single-resource calls; a call "
-        "the reference rejects must not return normally.",
+        "the reference rejects must not return normally; every exception raised anywhere in those histories is rendered (str, repr, "
+        "%-format, format, traceback, pickle round trip); paths beyond the backend's max_sys_path_length in every path position.",
    note=TB + "Admissible classes are those of FS/Ref.v (DESIGN.md C01 error-precedence principle). errno translation of the real "
         "kernel is exercised, not modelled.",
    technique="Coq proof (corollaries of the refinement) + failing-call differential against the reference",
@@ -79,7 +87,9 @@ CHECKS = {
    text="Theorems on the MemoryFS model for every state and path: queries are pure; exists = isdir||isfile (never both); "
         "listdir = names of scandir, each once; isempty iff listdir empty; getsize = len(readbytes) = info size; gettype/isdir/"
         "isfile agree with getinfo; every scandir info equals getinfo(join(d, name)). Real backends (15 incl. read-only "
-        "archives): all queries on every resource after the calls of random histories are compared with each other.",
+        "archives, FTPFS on a local server, six OS-backed trees with symbolic links): all queries on every resource after the calls "
+        "of random histories are compared with each other; scandir infos vs getinfo on every namespace both carry (basic, details, "
+        "access, stat, lstat, link, zip, tar; all 128 subsets in the thorough tier) and every page window.",
    note=TB + "Info accessor conversions (times, permissions) and JSON-serialisability are stdlib-relative: checked on the "
         "implementation only.",
    technique="Coq proof on the model + mutual-consistency sweep on the implementation",
@@ -88,7 +98,8 @@ CHECKS = {
    text="Theorems: the reference depends on a path argument only through its resolved components (all 26 calls); in the MemoryFS "
         "model two calls whose path arguments resolve alike are the same state transformer (function equality, every call except "
         "makedirs). Real backends: each probe call is issued with >= 7 spellings of the same normal form from identical states; "
-        "outcome class and resulting tree must coincide.",
+        "outcome class and resulting tree must coincide; bounded walks, glob and filterdir (every keyword by reflection) issued "
+        "with every spelling of the start directory must give the same ordered answers incl. the reported paths.",
    note=TB + "Linux '..' resolution behind OSFS is exercised, not modelled.",
    technique="Coq proof (spelling-independence) + spelling-group differential on 9 backends",
    ref="DESIGN.md §4 C11, §9"),
@@ -134,7 +145,9 @@ CHECKS = {
         "the _MemoryFile model (per-call seek on the shared BytesIO) gives the same results, positions and bytes as the reference "
         "raw file; corollaries: append writes at the end, truncate keeps the position and resizes, handles without write (read) "
         "permission reject. " + CORR + "Three-way: real _MemoryFile vs model, reference vs real io.FileIO, real handles of "
-        "MemoryFS/OSFS/SubFS/zip/tar members vs io.FileIO.",
+        "MemoryFS/OSFS/SubFS/zip/tar members vs io.FileIO; FTPFS file objects (raw, buffered, text; MLSD and LIST servers) on a "
+        "local pyftpdlib server vs the io object of the same layer, where a disagreement is a recorded finding only if an "
+        "executable model of FTPFile (an io file plus exactly the recorded deviation rules) reproduces the whole sequence.",
    note=TB + "BytesIO is modelled. Seeks to a negative target and zero-length append writes are outside the compared domain. "
         "Text layer/buffering: CPython's io (see C02).",
    technique="Coq refinement proof + three-way differential incl. real io.FileIO",
@@ -181,11 +194,13 @@ CHECKS.update({
    text="Theorems: the chunked copy loop of fs.tools.copy_file_data transfers every byte in order for every chunk size (None, "
         "negative, any positive) and every pattern of short reads, never writes an empty or over-long chunk, copies nothing for "
         "chunk size 0 (boundary stated); the digest is fed exactly the file; make_stream's layer table for the 24 mode spellings "
-        "(by computation). FS level, on the MemoryFS model (tied to the real MemoryFS step by step): what writebytes / open('w') / "
+        "(by computation) and the rejection of unbuffered text I/O for every mode string. FS level, on the MemoryFS model (tied to the real MemoryFS step by step): what writebytes / open('w') / "
         "appendbytes / copy / move stored is what readbytes returns; readbytes, open('r').read(), getsize agree; writing one "
         "file leaves every other file's bytes alone. " + CORR + "Real copy_file_data vs the model with short-reading readers; 10 write paths (incl. append mode after seek/read) x 8 read paths x "
         "boundary lengths per chunk size (incl. 1 MiB+-1, 5 MiB thorough) x backends; text with 7 encoding/errors x 5 newline "
-        "settings against CPython's io.TextIOWrapper(io.BytesIO).",
+        "settings against CPython's io.TextIOWrapper(io.BytesIO); writetext/appendtext/readtext with BOM encodings against a "
+        "real io file; FTPFS (both servers) with lengths around ftplib's block and the chunk size, the stored bytes read from the "
+        "server's directory.",
    note=TB + "Encoding/decoding/newline translation is CPython's io layer: differential only. A blocking reader returns b'' only at "
         "EOF (hypothesis of the loop theorem).",
    technique="Coq proof of the copy loop + write-path x read-path differential incl. CPython text oracle",
@@ -205,9 +220,12 @@ CHECKS.update({
         "the source or complete at the destination; a fired fault is reported; the source is removed only after every copy "
         "completed. The model's primitive traces are compared with the real code's for every fault position (vm_compute). "
         "Fault-injecting proxies around MemoryFS/OSFS (and the backends' own overrides): the step count n of each call is measured "
-        "fault-free, then step k = 0..n-1 is failed (complete enumeration per call), with workers 0-4.",
+        "fault-free, then step k = 0..n-1 is failed (complete enumeration per call), with workers 0-4; besides the generic "
+        "OperationFailed / OSError(errno kinds) / crash kinds, every fs.errors class that some `except` clause of the library "
+        "names (found by an ast scan on every run) is injected at the steps whose answers steer a move.",
    note=TB + "Python finally blocks still run on a simulated process stop. Buffered OSFS close is exercised only. os.rename "
-        "failure falling back to copy is by design.",
+        "failure falling back to copy is by design. A member of a MultiFS source answering ResourceNotFound is that member's "
+        "answer, not a failed step (DESIGN 9.6).",
    technique="Coq proof over all fault positions + exhaustive per-call fault enumeration on the real code",
    ref="DESIGN.md §4 C07, §9"),
  "C09": dict(
@@ -243,7 +261,12 @@ CHECKS.update({
         "linearizable). Real code: real threads serialised by a baton, context switch possible before every line of library code "
         "and at every lock operation (RLock proxies), all non-preemptive orders + every single preemption + sampled double/random "
         "ones (every double preemption for the shared pattern-cache cases), for pairs of 25 call templates x path relations on MemoryFS, OSFS, MountFS, MultiFS, SubFS views; every outcome "
-        "must be produced by some sequential order on the same backend; deadlock/livelock/timeouts/foreign exceptions detected.",
+        "must be produced by some sequential order on the same backend; deadlock/livelock/timeouts/foreign exceptions detected. "
+        "The process-wide pattern caches are put into every state class (empty, few, capacity-1, full) x hit/miss roles before "
+        "the threads start, and must never end over capacity; readers with every info namespace against every vanishing mutator. "
+        "LRU cache (Conc/LruConc.v over Glob/LRU.v): with its lock every schedule of any number of set/get calls keeps the "
+        "capacity bound and unique keys and is linearizable; without it a two-thread schedule ends over capacity (refuted "
+        "example = the defect repaired in /repo c46bb4e); the sequential LRU model is compared with the real class.",
    note=TB + "The races of methods made of several blocks (removedir, writebytes, getinfo, copy, walks/glob, wrapper kinds whose "
         "lock does not cover the wrapped filesystem) are genuine and recorded as known findings by class signature "
         "(known_findings.json + harness/c08_known_local.json); races between the other single-block methods are violations. "
